@@ -532,7 +532,7 @@ func oracle(c CaseIn, o CaseOut, base, baseE plan) verdict {
 			v.ok, v.symptom, v.what = false, symptom, what
 			return v
 		}
-		if c.Scen.Backend == "NSX" && c.FaultKind == "malformed" && (cls == "change" || o.FaultAt == 1) {
+		if c.Scen.Backend == "NSX" && (c.FaultKind == "malformed" || c.FaultKind == "json_error_200") && (cls == "change" || o.FaultAt == 1) {
 			// NSX defines success of these requests by the status code: not a failure
 			return verdict{ok: true}
 		}
@@ -732,8 +732,15 @@ func randomParams(r *RNG, backend string) ScenParams {
 }
 
 func kindsFor(backend string) []string {
-	if isHTTP(backend) {
-		return []string{"httpstatus", "status_nobody", "malformed", "errtext", "close", "silence", "stall_body"}
+	// the device rejects: the whole space of non-success replies of the protocol (PAN-OS: HTTP
+	// 200 with a status other than "success" in every spelling, with and without <msg>; NSX: 4xx /
+	// 5xx with text, JSON or no body)
+	if backend == "PAN-OS" {
+		return []string{"httpstatus", "status_nobody", "malformed", "errtext", "close", "silence", "stall_body",
+			"rej_unauth", "rej_failure", "rej_nostatus", "rej_word", "rej_case", "rej_error_nomsg"}
+	}
+	if backend == "NSX" {
+		return []string{"httpstatus", "status_nobody", "rej_4xx", "malformed", "json_error_200", "errtext", "close", "silence", "stall_body"}
 	}
 	return []string{"errtext", "unexpected", "garbled", "silence", "truncated", "stall_partial", "close", "warntext"}
 }
@@ -813,6 +820,11 @@ func run(ctx *Ctx) *Result {
 		}
 		applicable := func(pos int, k string) bool {
 			if pos == 0 && (k == "errtext" || k == "garbled" || k == "warntext") {
+				return false
+			}
+			if k == "json_error_200" && (pos < 1 || pos > len(blOut[i].Lines) || strings.HasPrefix(blOut[i].Lines[pos-1], "GET ")) {
+				// in place of a GET result the document would be read as an empty result list
+				// (docs/C09.md, not covered); on the other requests NSX defines success by the status
 				return false
 			}
 			return true
